@@ -1065,7 +1065,7 @@ pub fn check_c11(tier: &str) -> i32 {
     st.transitions += path.len() as u64;
     st.class("wrap-path");
     st.state(&res.model.next_tx);
-    if res.model.next_tx != (rounds % 65536) as u16 {
+    if res.problems.is_empty() && res.model.next_tx != (rounds % 65536) as u16 {
         st.violation(Violation { signature: "MACHINERY:wrap-path".into(), summary: format!("model next_tx {}", res.model.next_tx), replay: json!({}) });
     }
     for p in &res.problems {
